@@ -121,7 +121,7 @@ def wellformed_tg_snap(s):
     if len(set(names)) != len(names):
         return False
     for t in s["tiers"]:
-        if not snap.wellformed_tier_snap(t) or t["min"] < s["min"] or t["max"] > s["max"]:
+        if not snap.wellformed_times(t) or t["min"] < s["min"] or t["max"] > s["max"]:
             return False
         if not isinstance(t["name"], str) or "\n" in t["name"] or "\r" in t["name"] or t["name"] == "":
             return False
